@@ -62,7 +62,7 @@ func drawC11(t *rapid.T) c11Case {
 	}
 	if rapid.IntRange(0, 3).Draw(t, "withOwn") == 0 {
 		c.Locked, c.Strace = true, false
-		c.Own = []string{"prior-no-nnp", "prior-nnp", "prctl-denied", "seccomp-enosys"}[rapid.IntRange(0, 3).Draw(t, "own")]
+		c.Own = []string{"prior-no-nnp", "prior-nnp", "prctl-denied", "seccomp-enosys", "strict-probe-denied"}[rapid.IntRange(0, 4).Draw(t, "own")]
 		if c.Own != "prior-nnp" {
 			c.Uid = 0
 		}
@@ -109,6 +109,10 @@ func checkC11(raw json.RawMessage) (ev.Result, error) {
 		job.Steps = append(job.Steps, kjob.Step{Op: "load", Thread: 0, Filter: &kjob.FilterSpec{Policy: pp, NNP: c.Own == "prior-nnp", Flag: 0, HostArch: true}})
 	case "prctl-denied":
 		job.Steps = append(job.Steps, kjob.Step{Op: "outer-deny-nnp-thread", Thread: 0})
+	case "strict-probe-denied":
+		// as root and without touching the bit: an enclosing filter refuses seccomp(SECCOMP_SET_MODE_STRICT) - a support
+		// probe would say "unsupported" - while filters can be installed normally. A requested bit must be set all the same.
+		job.Steps = append(job.Steps, kjob.Step{Op: "outer-deny-strict-thread", Thread: 0})
 	case "seccomp-enosys":
 		// as root and without touching the bit: on the calling thread seccomp(2) answers ENOSYS (old kernel, container
 		// profile). Nothing can be installed through it; the bit must not be set unless requested.
@@ -147,6 +151,10 @@ func checkC11(raw json.RawMessage) (ev.Result, error) {
 	case "prctl-denied":
 		if oe := rr.Find(stOwn, "outer-deny-nnp"); len(oe) != 1 || oe[0].Err != "" {
 			return ev.Result{}, ev.Inconclusivef("could not install the prctl-denying filter")
+		}
+	case "strict-probe-denied":
+		if oe := rr.Find(stOwn, "outer-deny-strict"); len(oe) != 1 || oe[0].Err != "" {
+			return ev.Result{}, ev.Inconclusivef("could not install the filter that refuses the strict-mode probe")
 		}
 	case "seccomp-enosys":
 		if oe := rr.Find(stOwn, "outer-enosys"); len(oe) != 1 || oe[0].Err != "" {
